@@ -69,4 +69,52 @@ GroupPerimLen(G) == LET RECURSIVE Sum(_)
                     IN  Sum(Len(G))
 AllManhattan(G) == \A e \in GroupEdges(G) : IsAxisParallel(e[1], e[2])
 
+\* ---- fine coordinates ---------------------------------------------------------------------
+\* For an operation with scaling S (grid = 1/S user unit) everything is mapped to FINE units of
+\* 1/(2S) user unit: user integer x -> 2 S x, grid integer r -> 2 r, and sample points are ODD, so
+\* that a sample can never lie on a grid line (cut line, rounded vertex, axis-parallel edge).
+FineOfUser(G, S) == [i \in DOMAIN G |-> [k \in DOMAIN G[i] |-> <<2 * S * G[i][k][1], 2 * S * G[i][k][2]>>]]
+FineOfGrid(G) == [i \in DOMAIN G |-> [k \in DOMAIN G[i] |-> <<2 * G[i][k][1], 2 * G[i][k][2]>>]]
+FineSample(x, y, S) == LET o == IF S % 2 = 0 THEN 1 ELSE 0 IN <<S * (2 * x + 1) + o, S * (2 * y + 1) + o>>
+FineSamples(lo, hi, S) == {FineSample(x, y, S) : x \in lo..hi, y \in lo..hi}
+\* farther than 3 fine units (= 1.5 grid units) from segment ab; products kept inside 31 bits
+FarFromSegU(a, b, q) ==
+    LET ab == VSub(b, a)
+        aq == VSub(q, a)
+        bq == VSub(q, b)
+        len2 == Dot(ab, ab)
+        t == Dot(aq, ab)
+        NearPt(v) == Abs(v[1]) <= 3 /\ Abs(v[2]) <= 3 /\ Dot(v, v) <= 9
+    IN  IF len2 = 0 \/ t <= 0 THEN ~NearPt(aq)
+        ELSE IF t >= len2 THEN ~NearPt(bq)
+        ELSE LET c == Abs(Cross(ab, aq)) IN
+             IF c >= 3 * (Abs(ab[1]) + Abs(ab[2])) THEN TRUE ELSE c * c > 9 * len2
+FarU(G, q) == \A e \in GroupEdges(G) : IsAxisParallel(e[1], e[2]) \/ FarFromSegU(e[1], e[2], q)
+
+\* ---- distances (C13): conservative integer tests in fine units --------------------------------
+\* CloserThan => dist(q, segment ab) < T ;  FartherThan => dist(q, segment ab) > T
+SegCloserThan(a, b, q, T) ==
+    LET ab == VSub(b, a)
+        aq == VSub(q, a)
+        bq == VSub(q, b)
+        len2 == Dot(ab, ab)
+        t == Dot(aq, ab)
+    IN  IF len2 = 0 \/ t <= 0 THEN Dot(aq, aq) < T * T
+        ELSE IF t >= len2 THEN Dot(bq, bq) < T * T
+        ELSE Abs(Cross(ab, aq)) < T * ISqrt(len2)
+SegFartherThan(a, b, q, T) ==
+    LET ab == VSub(b, a)
+        aq == VSub(q, a)
+        bq == VSub(q, b)
+        len2 == Dot(ab, ab)
+        t == Dot(aq, ab)
+    IN  IF len2 = 0 \/ t <= 0 THEN Dot(aq, aq) > T * T
+        ELSE IF t >= len2 THEN Dot(bq, bq) > T * T
+        ELSE Abs(Cross(ab, aq)) > T * (ISqrt(len2) + 1)
+\* a part of a region: [outer |-> polygon, holes |-> sequence of polygons]
+PartEdges(part) == Edges(part.outer) \cup GroupEdges(part.holes)
+InPart(part, q) == Winding(part.outer, q) # 0 /\ \A i \in DOMAIN part.holes : Winding(part.holes[i], q) = 0
+BoundaryCloserThan(part, q, T) == \E e \in PartEdges(part) : SegCloserThan(e[1], e[2], q, T)
+BoundaryFartherThan(part, q, T) == \A e \in PartEdges(part) : SegFartherThan(e[1], e[2], q, T)
+
 =============================================================================
